@@ -96,7 +96,7 @@ Section Total.
     - (* union *)
       intros ts IH Hs ti cn g Hu. cbn in Hs. rewrite gen_ty_union. apply helper_total.
       intros g1 Hg1. destruct (IH Hs MSame 0 (ti_fn (ti_fi ti) (has_none ts)) cn g1) as (es & g2 & E).
-      { rewrite Hg1. pose proof (unguarded_mono ct _ _ (ext_app (g_guard g) [(TUnion ts, generic_name cn "union" (ti_fi ti))])). lia. }
+      { rewrite Hg1. pose proof (unguarded_mono ct _ _ (ext_app (g_guard g) [(TUnion ts, generic_name cn "union" (ti_fi ti) (List.length (g_guard g)))])). lia. }
       rewrite E. eauto.
     - intros vs _ ti cn g _. apply helper_total. eauto.
     - (* named *)
@@ -176,7 +176,7 @@ Proof.
   intros Hct c Hc. unfold gen_main. destruct (nth_error ct c) as [cd|] eqn:En.
   2:{ apply nth_error_None in En. lia. }
   destruct (gen_cls_n_total ct Hct (Datatypes.S (List.length ct)) c
-              {| g_guard := [(TData c, dc_name (c_name cd))]; g_fns := []; g_alias := false |} Hc) as (b & g' & E).
+              {| g_guard := [(TData c, dc_name (c_name cd))]; g_fns := [] |} Hc) as (b & g' & E).
   { unfold unguarded. cbn [g_guard].
     pose proof (filter_len_le (fun _ => true) (ung [(TData c, dc_name (c_name cd))]) (seq 0 (List.length ct)) (fun _ _ _ => eq_refl)).
     assert (List.length (filter (fun _ : nat => true) (seq 0 (List.length ct))) = List.length ct).
